@@ -24,6 +24,7 @@ import (
 	"github.com/btcsuite/btcwallet/wtxmgr"
 
 	"verif/harness/ledger"
+	"verif/harness/vorder"
 )
 
 // Maturity is the coinbase maturity used by the explorer (scaled from 100 so
@@ -48,7 +49,10 @@ type Env struct {
 
 // NewEnv creates a database with an empty store in dir.
 func NewEnv(dir string, n int) (*Env, error) {
-	path := filepath.Join(dir, fmt.Sprintf("txg-%d.db", n))
+	return newEnvPath(filepath.Join(dir, fmt.Sprintf("txg-%d.db", n)))
+}
+
+func newEnvPath(path string) (*Env, error) {
 	os.Remove(path)
 	db, err := walletdb.Create("bdb", path, true, time.Minute, false)
 	if err != nil {
@@ -541,39 +545,41 @@ func checkState(env *Env, ns walletdb.ReadWriteBucket, ref *ledger.Ref, cfg Conf
 
 func checkUnminedOrder(env *Env, ns walletdb.ReadWriteBucket, ref *ledger.Ref, rep func(prop, sig, msg string), st *Stats) {
 	b := ref.B
-	txs, err := env.Store.UnminedTxs(ns)
-	st.Evaluations++
-	if err != nil {
-		rep("C14", "unminedtxs-error", err.Error())
-		return
-	}
-	pos := map[int]int{}
-	var names []string
-	for i, tx := range txs {
-		t := b.Index(tx.TxHash())
-		names = append(names, fmt.Sprintf("t%d", t))
-		if _, dup := pos[t]; dup || t < 0 {
-			rep("C14", "unminedtxs-duplicate", fmt.Sprintf("UnminedTxs=%v has a duplicate/unknown entry", names))
+	vorder.Enumerate(func() {
+		txs, err := env.Store.UnminedTxs(ns)
+		st.Evaluations++
+		if err != nil {
+			rep("C14", "unminedtxs-error", err.Error())
 			return
 		}
-		pos[t] = i
-	}
-	if len(pos) != len(ref.Unconf) {
-		rep("C14", "unminedtxs-set", fmt.Sprintf("UnminedTxs=%v but ledger has %d unconfirmed", names, len(ref.Unconf)))
-		return
-	}
-	for t := range ref.Unconf {
-		if _, ok := pos[t]; !ok {
-			rep("C14", "unminedtxs-set", fmt.Sprintf("UnminedTxs=%v misses t%d", names, t))
-			return
-		}
-		for _, p := range b.ParentOf[t] {
-			if p[0] >= 0 && ref.Unconf[p[0]] && pos[p[0]] > pos[t] {
-				rep("C14", "unminedtxs-order", fmt.Sprintf("UnminedTxs=%v places t%d before its parent t%d", names, t, p[0]))
+		pos := map[int]int{}
+		var names []string
+		for i, tx := range txs {
+			t := b.Index(tx.TxHash())
+			names = append(names, fmt.Sprintf("t%d", t))
+			if _, dup := pos[t]; dup || t < 0 {
+				rep("C14", "unminedtxs:not-a-permutation", fmt.Sprintf("UnminedTxs=%v has a duplicate/unknown entry", names))
 				return
 			}
+			pos[t] = i
 		}
-	}
+		if len(pos) != len(ref.Unconf) {
+			rep("C14", "unminedtxs:not-a-permutation", fmt.Sprintf("UnminedTxs=%v but ledger has %d unconfirmed", names, len(ref.Unconf)))
+			return
+		}
+		for t := range ref.Unconf {
+			if _, ok := pos[t]; !ok {
+				rep("C14", "unminedtxs:not-a-permutation", fmt.Sprintf("UnminedTxs=%v misses t%d", names, t))
+				return
+			}
+			for _, p := range b.ParentOf[t] {
+				if p[0] >= 0 && ref.Unconf[p[0]] && pos[p[0]] > pos[t] {
+					rep("C14", "unminedtxs:order", fmt.Sprintf("UnminedTxs=%v places t%d before its parent t%d", names, t, p[0]))
+					return
+				}
+			}
+		}
+	})
 }
 
 func txName(b *ledger.Built, h chainhash.Hash) string {
